@@ -185,4 +185,44 @@ theorem runSeq_versions : ∀ (rs : List Req) (e : Etcd),
       refine ⟨by rw [ih.1], by rw [ih.2.1]; omega, ?_⟩
       rw [ih.2.2, hst]
 
+/-! ### soundness of the judge's history check w.r.t. `runSeq` (extension "cluster") -/
+
+/-- The requests of a list of observed operations (mutations only). -/
+def reqsOf : List Op → List Req
+  | [] => []
+  | o :: os => match o.kind with
+    | .mut r => r :: reqsOf os
+    | _ => reqsOf os
+
+/-- `replay` accepts only lists of mutations whose observed status / version are those of the sequential
+execution `runSeq`, and its last state is `runSeq`'s result. -/
+theorem replay_sound : ∀ (ops : List Op) (e : Etcd), (replay apply e ops).2 = true →
+    (runSeq e (reqsOf ops)).2.map (fun r => (r.status, r.version)) = ops.map (fun o => (o.status, o.ver)) ∧
+    (replay apply e ops).1.getLast? = some (runSeq e (reqsOf ops)).1 ∧ (reqsOf ops).length = ops.length
+  | [], e, _ => by simp [replay, runSeq, reqsOf]
+  | o :: os, e, h => by
+    match hk : o.kind with
+    | .mut r =>
+      simp only [replay, hk, Bool.and_eq_true, beq_iff_eq] at h
+      obtain ⟨⟨hs, hv⟩, hr⟩ := h
+      obtain ⟨i1, i2, i3⟩ := replay_sound os (apply e r).1 hr
+      simp only [reqsOf, hk, runSeq, replay, List.map_cons, List.length_cons, i1, i3, hs, hv, List.getLast?_cons, i2]
+      simp
+    | .get n seen => simp [replay, hk] at h
+    | .other => simp [replay, hk] at h
+
+theorem insertByVer_perm (o : Op) : ∀ l : List Op, (insertByVer o l).Perm (o :: l)
+  | [] => List.Perm.refl _
+  | x :: xs => by
+    simp only [insertByVer]
+    split
+    · exact List.Perm.refl _
+    · exact ((insertByVer_perm o xs).cons x).trans (List.Perm.swap o x xs)
+
+theorem sortByVer_perm : ∀ l : List Op, (sortByVer l).Perm l
+  | [] => List.Perm.refl _
+  | x :: xs => by
+    simp only [sortByVer, List.foldr_cons]
+    exact (insertByVer_perm x _).trans ((sortByVer_perm xs).cons x)
+
 end EgVerif.AdminAPI
